@@ -409,7 +409,15 @@ def correspondence(ctx, obs, quick):
                 add("sdsi", o, f"check_points (sd_point Qops) {sp(o['sd'])} {cqpairs((H(x), H(y)) for x, y in pairs(o['sd_si']))} {cq(TOL_MODEL * 2)}")
             if "fs_si" in o:
                 add("fssi", o, f"check_points (fs_point (T:=Q)) {sp(o['fs'])} {cqpairs((H(x), H(y)) for x, y in pairs(o['fs_si']))} {cq(TOL_MODEL)}")
-    res = run_compute_cases(ctx, "C14", IMPORTS, "", exprs)
+    # canaries: deliberately wrong expectations must be rejected by the model comparison
+    canaries = [("canary1", f"check_seq1d {cq(0)} {cq(4)} 5 [{cq(0)}; {cq(1)}; {cq(2)}; {cq(3)}; {cq(5)}] {cq(TOL_MODEL)}", "[4]"),
+                ("canary2", f"check_seq2d {cq(0)} {cq(1)} 2 {cq(0)} {cq(2)} 3 {cqpairs([(0, 0), (0, 1), (0, 2), (1, 0), (1, 1), (1, 2)])} {cq(TOL_MODEL)}", None),
+                ("canary3", "transpose_vec (seq 0 6) 3", "Panic")]
+    res = run_compute_cases(ctx, "C14", IMPORTS, "", exprs + [(c[0], c[1]) for c in canaries])
+    for cid, _, expect in canaries:
+        got = (res.get(cid) or "").replace("%nat", "")
+        if (expect is not None and got.replace(" ", "") != expect.replace(" ", "")) or (expect is None and got in ("", "[]")):
+            ctx.proof_failures.append(("Cases/C14", cid, f"the model comparison gave {got!r} on a deliberately wrong expectation"))
     nok = 0
     for cid, (kind, o, exact) in meta.items():
         got = res.get(cid)
